@@ -33,7 +33,7 @@ PLAN = {
         "State::flush (Verus): HashSet<Key> as an abstract set with the std contracts of insert/remove/contains; Registry::get_*_handles yields each registered key once (C06); Key::clone is the identity on the abstract key; PayloadWriter::write_* are recording stubs; tracing::error! and TelemetryUpdate are no-ops for the property",
         "SystemTime::now()/duration_since are uninterpreted stubs; ASSUMED: the system clock is not before 1970-01-01 (duration_since(UNIX_EPOCH) is Ok); only is_some() of the timestamp is specified",
         "declared rewrites in state.verus.rs: R2 (for -> loop/match over shim_next), R10 (SystemTime::UNIX_EPOCH -> shim_unix_epoch()), R11 (histogram section of State::flush replaced by a unit let: not under contract), R12 (Option<String>::as_deref -> shim, value irrelevant); tracing::error! expands to ()",
-        "socket I/O (Forwarder::run / try_send, UdpSocket/UnixStream) is out of scope: 'what the agent socket receives' is claimed up to the payload list handed to the forwarder (C09) and the framing flag",
+        "socket I/O: Client::send is under contract (send.verus.rs: Ok(n) only for the whole payload; on a stream socket the whole frame was written) over ASSUMED std contracts of UdpSocket/UnixDatagram::send (a datagram goes out whole or not at all) and Write::{write, write_all}; the reconnect loop ClientState::try_send and Forwarder::run are out of scope",
         "panic = failure; unwinding semantics not modelled",
     ],
     "kani": [{
@@ -69,12 +69,15 @@ PLAN = {
         # usage contract on AtomicHistogram::{record, flush, is_empty}: the flush path drains only with the bucket's atomic
         # take-and-deliver operation (clear() / data_with() / data() there are failed call-site obligations)
         {"template": "hist.verus.rs", "tier": "quick", "rlimit": 30, "min_functions": 3},
+        # forwarder: Client::send reports success only for a whole payload (stream sockets: the whole frame is on the stream)
+        {"template": "send.verus.rs", "tier": "quick", "rlimit": 20, "min_functions": 1},
     ],
     "witnesses": [
         {"match": r"fn get_aggregation_timestamp/", "src": "witness_timestamp.rs", "crate": "metrics-exporter-dogstatsd", "file": STATE},
         # the interleaving is replayed step by step through the counter's (private) atomics, hence the test module sits in storage.rs
         {"match": r"fn flush/", "src": "witness_idle_skip.rs", "crate": "metrics-exporter-dogstatsd", "file": ST},
         # the idle / re-activation clause over two idle periods (also matches messages that name the idle helpers or State::flush)
+        {"match": r"(State :: fn flush|fn get_aggregation_timestamp)", "name": "impl State :: fn flush", "src": "witness_flush_timestamps.rs", "crate": "metrics-exporter-dogstatsd", "file": ST},
         {"match": r"(State :: fn flush|FlushState|idle)", "name": "impl State :: fn flush", "src": "witness_idle_cycle.rs", "crate": "metrics-exporter-dogstatsd", "file": ST},
     ],
     # Findings on the tree as delivered (documentation only; the driver does not read this key).
